@@ -52,6 +52,13 @@ CLAIMED.update({
             "operation; all path pairs must agree on return-vs-panic and on the value (float->Decimal: the other compilation is checked against the C13 spec); "
             "counterexamples are replayed on the dev and release native builds. Known findings: operators that rely on rustc's overflow checks.", "2 C20"),
 })
+CLAIMED.update({
+    "C09": ("gcd_special by an inductive loop-invariant cut on the MIR (base case, preservation of one arbitrary iteration, decreasing variant, exit; no unrolling "
+            "bound) modulo six stated gcd facts; as_integer_ratio / numerator / denominator divide exactly by that gcd; Hash::hash feeds exactly that pair to the hasher.", "2 C09"),
+    "C19": ("storage model read off the MIR (thread_local static behind LocalKey::with); inductive step from every abstract state of 3 threads under every action "
+            "executed on the real bodies; round_quot(None) = round_quot(Some(default())) for all operands; every public rounding call site passes None; schedules "
+            "replayed on real threads.", "2 C19"),
+})
 NA = {}
 
 def main():
